@@ -192,6 +192,23 @@ var c11Injectors = []c11Injector{
 		return true
 	}},
 	// ---- dangling / ill-kinded references: no crash, same verdict
+	// a chain of includes in which only the last submodule imports a module that the first one uses:
+	// whatever the verdict, it must not depend on the order in which the submodules are met
+	{"include-chain-with-import-in-the-last-submodule", false, func(r *core.Rng, ms *yang.ModSet) bool {
+		c11IncludeChain(ms, false)
+		return true
+	}},
+	{"import-cycle-closed-by-the-last-submodule-of-an-include-chain", true, func(r *core.Rng, ms *yang.ModSet) bool {
+		c11IncludeChain(ms, true)
+		return true
+	}},
+	{"submodule-including-itself", true, func(r *core.Rng, ms *yang.ModSet) bool {
+		m := modA(ms)
+		sub := yang.S("submodule", "sub-self", yang.S("belongs-to", m.Arg, yang.S("prefix", pfx(m))), yang.S("include", "sub-self"), yang.S("leaf", "sub-self-leaf", yang.S("type", "string")))
+		addBody(m, yang.S("include", "sub-self"))
+		ms.Mods = append(ms.Mods, sub)
+		return true
+	}},
 	{"identityref-with-base-defined-in-a-submodule", false, func(r *core.Rng, ms *yang.ModSet) bool {
 		m := modA(ms)
 		sub := yang.S("submodule", "sub-id", yang.S("belongs-to", m.Arg, yang.S("prefix", pfx(m))),
@@ -450,6 +467,25 @@ func c11SubmoduleImportCycle(ms *yang.ModSet, pfx string, withGroupings bool) bo
 	addBody(a, yang.S("include", "sub-ic"))
 	ms.Mods = append(ms.Mods, sub, b)
 	return true
+}
+
+// c11IncludeChain: module A includes ch-1, ch-1 includes ch-2, ch-2 includes ch-3; only ch-3 imports the
+// new module ch-b, whose typedef ch-1 uses.  closeCycle: ch-b imports A.
+func c11IncludeChain(ms *yang.ModSet, closeCycle bool) {
+	a := modA(ms)
+	bt := func() *yang.Stmt { return yang.S("belongs-to", a.Arg, yang.S("prefix", pfx(a))) }
+	s1 := yang.S("submodule", "ch-1", bt(), yang.S("include", "ch-2"), yang.S("leaf", "ch-1-leaf", yang.S("type", "chb:chb-t")))
+	s2 := yang.S("submodule", "ch-2", bt(), yang.S("include", "ch-3"), yang.S("leaf", "ch-2-leaf", yang.S("type", "string")))
+	s3 := yang.S("submodule", "ch-3", bt(), yang.S("import", "ch-b", yang.S("prefix", "chb")), yang.S("leaf", "ch-3-leaf", yang.S("type", "chb:chb-t")))
+	b := yang.S("module", "ch-b", yang.S("namespace", "urn:verif:ch-b"), yang.S("prefix", "chb"), yang.S("typedef", "chb-t", yang.S("type", "uint8")))
+	if closeCycle {
+		b.Add(yang.S("import", a.Arg, yang.S("prefix", "back")))
+	}
+	for _, x := range []*yang.Stmt{s1, s2, s3, b} {
+		yang.SortSections(x)
+	}
+	addBody(a, yang.S("include", "ch-1"))
+	ms.Mods = append(ms.Mods, s1, s2, s3, b)
 }
 
 func c11AddHomonyms(m *yang.Stmt, n int) {
